@@ -66,10 +66,10 @@ class Aberrations:
             TAchC.append(self._TAchC_term(k))
             TchC.append(self._TchC_term(k))
 
-            SC.append(-TSC[k-1] / self._ua[-1])
-            AC.append(-TAC[k-1] / self._ua[-1])
-            PC.append(-TPC[k-1] / self._ua[-1])
-            LchC.append(-TAchC[k-1] / self._ua[-1])
+            SC.append(-TSC[k-1] / self._ua[-2])
+            AC.append(-TAC[k-1] / self._ua[-2])
+            PC.append(-TPC[k-1] / self._ua[-2])
+            LchC.append(-TAchC[k-1] / self._ua[-2])
 
         S = self._sum_seidels([TSC, CC, TAC, TPC, DC])
 
@@ -83,6 +83,8 @@ class Aberrations:
         AC = np.array(AC).flatten()
         PC = np.array(PC).flatten()
         LchC = np.array(LchC).flatten()
+        SC = np.array(SC).flatten()
+        S = S.squeeze()
 
         return TSC, SC, CC, CC*3, TAC, AC, TPC, PC, DC, TAchC, LchC, TchC, S
 
@@ -122,7 +124,7 @@ class Aberrations:
         SC = []
         for k in range(1, self._N-1):
             TSC.append(self._TSC_term(k))
-            SC.append(-TSC[-1] / self._ua[-1])
+            SC.append(-TSC[-1] / self._ua[-2])
         return np.array(SC).flatten()
 
     def CC(self):
@@ -172,7 +174,7 @@ class Aberrations:
         AC = []
         for k in range(1, self._N-1):
             TAC.append(self._TAC_term(k))
-            AC.append(-TAC[-1] / self._ua[-1])
+            AC.append(-TAC[-1] / self._ua[-2])
         return np.array(AC).flatten()
 
     def TPC(self):
@@ -200,7 +202,7 @@ class Aberrations:
         PC = []
         for k in range(1, self._N-1):
             TPC.append(self._TPC_term(k))
-            PC.append(-TPC[-1] / self._ua[-1])
+            PC.append(-TPC[-1] / self._ua[-2])
         return np.array(PC).flatten()
 
     def DC(self):
@@ -241,7 +243,7 @@ class Aberrations:
         LchC = []
         for k in range(1, self._N-1):
             TAchC.append(self._TAchC_term(k))
-            LchC.append(-TAchC[-1] / self._ua[-1])
+            LchC.append(-TAchC[-1] / self._ua[-2])
         return np.array(LchC).flatten()
 
     def TchC(self):
